@@ -199,7 +199,7 @@ ERRNOS = {"pipe": [24, 23], "fcntl": [9, 24], "fork": [11, 12], "chdir": [13, 2,
           "sigmask": [22], "setuid": [1, 11, 512], "setgid": [1, 524], "setpgid": [1, 13, 3, 256],
           "execve": [13, 2, 8, 7, 12, 26] + WIDE,
           # the parent's read of the launch-status channel: interrupted by a signal handler, or failing for good
-          "read": [4, 5]}
+          "read": [4, 5], "signal": [22]}
 
 
 def fam_faults(seed, big):
@@ -216,7 +216,7 @@ def fam_faults(seed, big):
         nfcntl = 4 + 2 * (npipes - 1)
         points = [("pipe", k, 0) for k in range(1, npipes + 1)] + [("fcntl", k, 0) for k in range(1, nfcntl + 1)] + \
                  [("fork", 1, 0), ("chdir", 1, 1), ("setuid", 1, 1), ("setgid", 1, 1),
-                  ("setpgid", 1, 1), ("execve", 1, 1), ("read", 1, 0)]
+                  ("setpgid", 1, 1), ("execve", 1, 1), ("read", 1, 0), ("signal", 1, 1)]
         ndup = sum(1 for x in (a, b, c) if x != "none")
         points += [("dup2", k, 1) for k in range(1, ndup + 1)]
         for (kind, nth, side) in points:
